@@ -47,7 +47,9 @@ func Parse(input []byte) (msg ast.HSMSMessage, ok bool) {
 		}
 	}()
 
-	p := &parser{input: input}
+	// Limit the capacity to the length, so that slice expressions on the input
+	// cannot reach bytes beyond its end.
+	p := &parser{input: input[:len(input):len(input)]}
 	if ok := p.parseMessageLength(); !ok {
 		return p.msg, false
 	}
